@@ -442,6 +442,59 @@ func runC15(c *engine.Ctx) {
 	// ---- R6 the Ping gate really gates (shared with C04.R4 / C14.R2): a heartbeat refused by the plugin chain must not
 	// refresh the session's liveness ----
 	checkHeartbeatGate(c, "R6")
+
+	// ---- R7 the op names a configuration may use are exactly the ones Register files plugins under ----
+	c.Rule("R7", "ValidateServerConfig accepts an http plugin's ops only by exact membership in SupportedHTTPPluginOps (no case folding): IsSupport, which Manager.Register uses to file a plugin under an operation, compares exactly, so a leniently accepted spelling registers the plugin for nothing and every operation passes unconsulted")
+	if f := fn(c, "pkg/config/v1/validation.ValidateServerConfig"); f != nil {
+		opsF := field(c, "pkg/config/v1", "HTTPPluginOptions", "Ops")
+		exact, folded := 0, ""
+		for _, g := range append([]*ssa.Function{f}, allAnon(f)...) {
+			engine.ForEachInstr(g, func(in ssa.Instruction) {
+				call, ok := in.(ssa.CallInstruction)
+				if !ok {
+					return
+				}
+				o := engine.CalleeObj(call)
+				if o == nil || o.Pkg() == nil {
+					return
+				}
+				if o.Pkg().Path() == "strings" && (o.Name() == "EqualFold" || o.Name() == "ToLower" || o.Name() == "ToUpper") {
+					folded = o.Name() + " at " + c.P.Pos(in.Pos())
+				}
+				if (o.Name() == "Every" || o.Name() == "Contains") && opsF != nil {
+					uses, sup := false, false
+					for _, a := range call.Common().Args {
+						src := engine.Provenance(a, engine.ProvOpts{})
+						if src.HasField(opsF) {
+							uses = true
+						}
+						for gl := range src.Globals {
+							if gl.Name() == "SupportedHTTPPluginOps" {
+								sup = true
+							}
+						}
+					}
+					if uses && sup {
+						exact++
+					}
+				}
+			})
+		}
+		c.Check(exact >= 1 && folded == "", "pkg/config/v1/validation.ValidateServerConfig>plugin-ops", f.Pos(), exact+1, nil,
+			"plugin ops are validated by exact membership (exact tests: %d; case folding: %q)", exact, folded)
+		// and the consumer compares exactly too
+		if is := fn(c, "pkg/plugin/server.httpPlugin.IsSupport"); is != nil {
+			fold := ""
+			engine.ForEachInstr(is, func(in ssa.Instruction) {
+				if call, ok := in.(ssa.CallInstruction); ok {
+					if o := engine.CalleeObj(call); o != nil && o.Pkg() != nil && o.Pkg().Path() == "strings" && (o.Name() == "EqualFold" || o.Name() == "ToLower" || o.Name() == "ToUpper") {
+						fold = o.Name()
+					}
+				}
+			})
+			c.Check(fold == "", "pkg/plugin/server.httpPlugin.IsSupport>exact", is.Pos(), 1, nil, "IsSupport compares op names exactly, like the validator (%s)", fold)
+		}
+	}
 }
 
 // nameStores returns the values stored into (nested) field fv of the struct allocated by al.
